@@ -12,7 +12,8 @@ import os
 import shutil
 import sqlite3
 
-from harness import common as C
+os.environ.setdefault('OPENBLAS_NUM_THREADS', '1')   # (before numpy is loaded: a busy machine makes threaded BLAS 100x slower)
+from harness import common as C  # noqa: E402
 from harness import curves_common as CC
 from harness import dataset as D
 
@@ -72,13 +73,19 @@ def run_ref(db, kind, ref, tag):
     return 'ok', None, levels
 
 
-def refs_for(rng, levels, step):
+def refs_for(rng, levels, step, n_pick=4, acceptance=True):
+    """acceptance=False (large records): only on-grid references on the curve - the acceptance forms are exercised on
+    the small records."""
     ks = sorted(levels)
-    pick = rng.sample(ks, min(len(ks), 4))
+    pick = rng.sample(ks, min(len(ks), n_pick))
     out = []
     for k in pick:
         out.append(('product', k, k * step, True))
         out.append(('decimal', k, float('%.6g' % (k * step)), True))
+    if not acceptance:
+        if getattr(levels, 'table', None):
+            out.append(('top-of-curve', max(levels.table), max(levels.table) * step, True))
+        return out
     k = rng.choice(ks)
     out.append(('half-step', k, (k + 0.5) * step, False))
     out.append(('off-3e-7', k, k * step + 3e-7, False))
@@ -91,7 +98,73 @@ def refs_for(rng, levels, step):
     return out
 
 
-def check(plans, out, label):
+CURVE_TABLES = ['rising_interval', 'rising_interval_zeta', 'recession_interval', 'recession_interval_zeta',
+                'average_rising_depth', 'average_recession_time', 'rising_curve_line_segment']
+
+
+def env_stage(db, plan, kind, base, out, variant, extra=False, tag=''):
+    """ENVIRONMENT STAGE: `KIND DB -r REF` in a CHILD process under one variant of harness.envcheck (`python -O`:
+    assert statements removed; another TZ / current directory / hash seed; DEBUG logging) for an on-grid reference,
+    (every second time) no reference, and a reference half a step off the grid - one child runs them in this order, each
+    on its own copy of the database (extra=True: a second child for a reference 3e-7 off the grid).  The child must
+    accept / refuse exactly as the default in-process run does (refusal = the same ValueError), and an accepted run
+    must store the same curve (tables and views, row for row).  The in-process runs themselves are judged by the
+    oracle of check()."""
+    from harness import envcheck as E
+    step = plan['grid_step']
+    ks = sorted(base.table)
+    k = ks[len(ks) // 2]
+    groups = [[('product', k * step)] + ([('none', None)] if k % 2 else []) + [('half-step', (k + 0.5) * step)]]
+    if extra:
+        groups.append([('off-3e-7', k * step + 3e-7)])
+    how = 'python -O: assert statements removed' if variant.get('opt') else str(variant.get('env') or variant['name'])
+    for refs in groups:
+        default, works, argvs = [], [], []
+        for j, (form, ref) in enumerate(refs):
+            default.append(run_ref(db, kind, ref, 'envd%s%d' % (tag, j)))
+            work = os.path.join(os.path.dirname(db), 'env_%s%s%d.sqlite3' % (variant['name'], tag, j))
+            shutil.copyfile(db, work)
+            works.append(work)
+            argvs.append([kind, work] + ([] if ref is None else ['-r', repr(ref)]))
+        res, failed = E.run_cli_sequence_variant(argvs, variant)
+        err = E.last_error_line(res)
+        for j, (form, ref) in enumerate(refs):
+            if failed is not None and j > failed:
+                out.count('environment: command not reached (an earlier one of the same child failed)')
+                continue
+            out.evaluations += 1
+            out.count('environment: %s, %s reference' % (variant['name'], form))
+            case = dict(level='ENV', plan=plan, kind=kind, ref=ref, form=form, variant=variant['name'], extra=extra)
+            st, exc, lev = default[j]
+            st2 = ('ok' if failed is None or j < failed else 'refused' if 'ValueError' in err and 'not evenly divisible' in err
+                   else 'not-on-curve' if err.startswith('KeyError') else 'error')
+            ref_txt = 'no reference' if ref is None else 'reference %r = %s x step %s' % (ref, (k + 0.5) if form == 'half-step' else k, step)
+            if st2 != st:
+                out.violation('oracle', '%s, %s: the default run %s, the same command in a child process under %s (%s) %s'
+                              % (kind, ref_txt, 'stores a curve' if st == 'ok' else 'ends with %r' % (exc,), variant['name'], how,
+                                 'stores a curve (exit status 0)' if st2 == 'ok' else 'ends with: ' + err[:200]), case=case)
+                continue
+            if st == 'ok':
+                diffs = E.diff_dumps(D.dump(lev.db, tables=CURVE_TABLES, views=True), D.dump(works[j], tables=CURVE_TABLES, views=True))
+                if diffs:
+                    out.violation('oracle', '%s, %s: the curve stored in a child process under %s (%s) differs from the default '
+                                  'run: %s' % (kind, ref_txt, variant['name'], how, '; '.join(diffs[:3])), case=case)
+                else:
+                    out.nontriv(('env', kind, form, variant['name'], step))
+            else:
+                out.nontriv(('env', kind, form, variant['name'], step, st))
+
+
+def env_variant(n, kind, mode):
+    """'opt': `python -O`; 'other': one of the other variants of harness.envcheck, rotating with the plan and the command."""
+    from harness import envcheck as E
+    V = {v['name']: v for v in E.workflow_env_variants()}
+    others = [v for v in E.workflow_env_variants() if v['name'] not in ('default', 'opt')]
+    return V['opt'] if mode == 'opt' else others[(2 * n + (kind == 'recession')) % len(others)]
+
+
+def check(plans, out, label, env_plans=None):
+    env_plans = env_plans or {}
     cases, meta = [], []
     del VIEW_ITEMS[:]
     for n, plan in enumerate(plans):
@@ -107,9 +180,16 @@ def check(plans, out, label):
             if st != 'ok':
                 out.count('no-curve(' + kind + ')')
                 continue
+            if plan.get('rows'):
+                nrows = len(CC.read_curves(base.db)['rising_interval_zeta' if kind == 'rise' else 'recession_interval_zeta'])
+                out.count('%s: %d stored crossing rows%s' % (kind, nrows, (' (aimed at %d: %s)' % (
+                    plan['rows']['target'], 'reached' if nrows == plan['rows']['target'] else 'MISSED')) if kind == 'rise' else ''))
+            for mode in env_plans.get(n, ()):
+                env_stage(db, plan, kind, base, out, env_variant(n, kind, mode), extra=(len(env_plans[n]) > 1))
             # no reference: the origin is the LAST row of the view (C09_view_origin_is_top_without_reference); the view
-            # against Model/Views.v inside Coq
-            VIEW_ITEMS.append((CC.dump_views(base.db), case0))
+            # against Model/Views.v inside Coq (large records: judged by the oracle only)
+            if not plan.get('large'):
+                VIEW_ITEMS.append((CC.dump_views(base.db), case0))
             n_ref_views = 0
             if plan.get('top_cell'):
                 out.count('%s: highest level positive and off the grid lines, top grid level %s crossed by >= 2 intervals'
@@ -127,7 +207,8 @@ def check(plans, out, label):
                                  '' if top == max(base.table) else '; the tables hold crossings up to level %d (%s mm), which '
                                  'the view does not show' % (max(base.table), max(base.table) * plan['grid_step'])), case=case0)
             step = plan['grid_step']
-            for form, k, ref, on_grid in refs_for(rng, base, step):
+            for form, k, ref, on_grid in refs_for(rng, base, step, n_pick=1 if plan.get('large') else 4,
+                                                  acceptance=not plan.get('large')):
                 out.evaluations += 1
                 out.count('%s:%s' % (form, step))
                 case = dict(level='CL', plan=plan, kind=kind, ref=ref, form=form, k=k)
@@ -157,7 +238,7 @@ def check(plans, out, label):
                     if k not in lev or abs(lev[k]) > 1e-9 * scale:
                         out.violation('oracle', '%s -r %r (%d x %s): master curve at that level is %r, not 0; zero at levels %s'
                                       % (kind, ref, k, step, lev.get(k), zero), case=case)
-                    if on_grid and n_ref_views < 2:
+                    if on_grid and n_ref_views < 2 and not plan.get('large'):
                         n_ref_views += 1          # two accepted references per curve: C09_view_zero_at_reference
                         VIEW_ITEMS.append((CC.dump_views(lev.db), case))
                     if on_grid and len(base) >= 3:
@@ -194,11 +275,24 @@ def run(ctx, out):
         rng = C.rng_for(seed, PROP, 'top', k)
         g = GRID_STEPS[(3 * k + seed) % len(GRID_STEPS)]
         plans.append(CC.make_plan(rng, n_events=rng.randrange(3, 5), grid_step=g, noise=(k % 2 == 0), top_cell=True))
-    check(plans, out, 'cl')
+    # exact-count coincidence named by a seeded defect (rows handed to the database in batches of 1000): records whose
+    # rise curve is stored in exactly 1001 / 2001 crossing rows (thorough: also 1000, 1025, 3001, 4097), storm depths
+    # 0-3% off the storage curve so that every stored row matters for the level means; own random streams
+    targets = [1001, 2001] if tier == 'quick' else [1001, 2001, 1000, 1025, 3001, 4097, 1001, 2001]
+    n_small = len(plans)
+    for k, rows in enumerate(targets):
+        plans.append(CC.make_rowcount_plan(C.rng_for(seed, PROP, 'rows', k), rows))
+    # environment stage on two of the small plans (grid steps 0.1 and 0.3 mm): one child process per command running 2-3
+    # references - `python -O` on the first plan, another variant on the second; thorough: every 7th plan, both, 4 children each
+    check(plans, out, 'cl', env_plans={2: ['opt'], 11: ['other']} if tier == 'quick' else {k: ['opt', 'other'] for k in range(2, n_small, 7)})
     out.rule = ('Planted datasets x grid steps {1, .5, .1, .2, .3, 2.5, 5} x references (k*step as float product, as decimal '
                 'text, half a step off, 3e-7 off, 3e-9 off, a multiple outside the curve, the highest level of the '
                 'assembled curve, none) through `rise -r` and `recession -r`; 1/5 of the records have a positive highest '
-                'level off the grid lines with the top grid level crossed by >= 2 rises and >= 2 recessions. The curve is '
+                'level off the grid lines with the top grid level crossed by >= 2 rises and >= 2 recessions. Plus records whose rise curve is '
+                'stored in exactly 1001 / 2001 crossing rows (3-7 storms through the same N levels, some one level less; storm '
+                'depths 0-3% off the storage curve). Environment stage: `rise -r` / `recession -r` in a child process under '
+                '`python -O` (on-grid reference, no reference, reference half a step off) and under another variant (TZ, DEBUG '
+                'logging, other directory, random hash seed): same acceptance / refusal and the same stored curve as the default in-process run. The curve is '
                 'read from the views average_rising_depth / average_recession_time and compared with the tables. Non-trivial: accepted on-grid reference on a curve with >= 3 levels; distinct by (command, '
                 'form, step, k).')
     out.samples = [dict(step=plans[0]['grid_step'], refs='k*step for k in curve levels, decimal text, off-grid variants')]
@@ -208,4 +302,12 @@ def run(ctx, out):
 
 def replay(case, out):
     C.import_spowtd()
+    if case.get('level') == 'ENV':
+        from harness import envcheck as E
+        plan, kind = case['plan'], case['kind']
+        db = prepare(plan, 'prep')
+        st, exc, base = run_ref(db, kind, None, 'none')
+        if st == 'ok':
+            env_stage(db, plan, kind, base, out, E.variant_by_name(case['variant']), extra=bool(case.get('extra')), tag='r')
+        return
     check([case['plan']], out, 'replay')
